@@ -29,7 +29,8 @@ TraceInit ==
 
 TSub    == Is("Sub") /\ Submit(E.r, E.id) /\ Step
 TTake   == Is("Take") /\ Take(E.c) /\ snd'[E.c].r = E.r /\ Step
-TWrite  == Is("Write") /\ snd[E.c].r = E.r /\ WriteRecord(E.c) /\ Step
+\* the id on the wire is the id of the request's own future
+TWrite  == Is("Write") /\ snd[E.c].r = E.r /\ id[E.r] = E.id /\ WriteRecord(E.c) /\ Step
 TReg    == Is("Reg") /\ snd[E.c].r = E.r /\ Register(E.c) /\ Step
 TSRecv  == Is("SRecv") /\ (\E c \in AllConn : SrvReceive(c) /\ srx'[c].r = E.r) /\ Step
 \* C18: the payload reached the routed handler intact
